@@ -40,11 +40,11 @@ PATHM = 'valjean.path'
 
 
 def check(ctx):
-    extcmd.check_run_loop(ctx)
-    extcmd.check_cap_flow(ctx)
-    extcmd.check_sanitize(ctx)
-    extcmd.check_sanitizer_body(ctx)
-    sched_worker.check_wrk1(ctx)
+    ctx.run(extcmd.check_run_loop)
+    ctx.run(extcmd.check_cap_flow)
+    ctx.run(extcmd.check_sanitize)
+    ctx.run(extcmd.check_sanitizer_body)
+    ctx.run(sched_worker.check_wrk1)
 
 
 def variants(program):
